@@ -111,11 +111,15 @@ class Evaluator:
                 return self.env[node.id]
             if node.id in ("True", "False", "None"):
                 return {"True": True, "False": False, "None": None}[node.id]
+            if node.id == "NotImplemented":
+                return NotImplemented
             ent = self.resolve(node)
-            if isinstance(ent, (ClassInfo, FuncInfo)):
+            if isinstance(ent, (ClassInfo, FuncInfo, External, Module)):
                 return ent
             if isinstance(ent, Const):
                 return self.const(ent)
+            if node.id in BUILTIN_TYPES:
+                return External("builtins." + node.id)
             raise Unsupported("table evaluator: free name %s" % node.id)
         if isinstance(node, ast.Tuple):
             return tuple(self.ev(e) for e in node.elts)
@@ -149,7 +153,13 @@ class Evaluator:
             return self.compare(node)
         if isinstance(node, ast.Subscript):
             v = self.ev(node.value)
-            i = self.ev(node.slice)
+            if isinstance(node.slice, ast.Slice):
+                sl = node.slice
+                i = slice(self.ev(sl.lower) if sl.lower else None,
+                          self.ev(sl.upper) if sl.upper else None,
+                          self.ev(sl.step) if sl.step else None)
+            else:
+                i = self.ev(node.slice)
             if isinstance(v, Abs):
                 raise Unsupported("table evaluator: subscript of %r" % v)
             try:
@@ -238,6 +248,8 @@ class Evaluator:
                 else:
                     r = NotImplemented
                 if r is NotImplemented:
+                    r = self.class_eq(left, right)
+                if r is NotImplemented:
                     if isinstance(left, Abs) or isinstance(right, Abs):
                         r = left is right
                     else:
@@ -277,18 +289,35 @@ class Evaluator:
             left = right
         return True
 
+    def class_eq(self, a, b):
+        """__eq__ defined by the repository class of an abstract operand"""
+        if self.depth > 20:
+            return NotImplemented
+        for x, y in ((a, b), (b, a)):
+            if isinstance(x, Abs) and x.cls is not None:
+                m = x.cls.find_method("__eq__")
+                if m is not None:
+                    r = self.inline(m, [x, y], {})
+                    if r is NotImplemented or r is None:
+                        continue
+                    return bool(r) if not isinstance(r, Abs) else True
+        return NotImplemented
+
     def _eq(self, a, b):
         if self.hooks is not None:
             r = self.hooks.eq(self, a, b)
             if r is not NotImplemented:
                 return r
+        r = self.class_eq(a, b)
+        if r is not NotImplemented:
+            return r
         if isinstance(a, Abs) or isinstance(b, Abs):
             return a is b
         return a == b
 
     def attribute(self, node):
         ent = self.resolve(node)
-        if isinstance(ent, (ClassInfo, FuncInfo)):
+        if isinstance(ent, (ClassInfo, FuncInfo, External)):
             return ent
         if isinstance(ent, Const):
             return self.const(ent)
@@ -445,6 +474,16 @@ class Evaluator:
         else:
             target = self.ev(f) if not isinstance(f, ast.Name) or \
                 f.id in self.env else self.resolve(f)
+            if isinstance(target, External):
+                nm = target.name.split(".")[-1]
+                if nm in ("int", "float", "str") and len(args) == 1 and \
+                        not isinstance(args[0], Abs):
+                    try:
+                        return BUILTIN_TYPES[nm](args[0])
+                    except Exception:
+                        raise Raised("builtins.ValueError")
+        if isinstance(target, Closure):
+            return target.call(self, args, kwargs)
         if isinstance(target, tuple) and target and target[0] == "bound":
             return self.inline(target[1], [target[2]] + args, kwargs)
         if isinstance(target, FuncInfo):
@@ -493,12 +532,20 @@ class Evaluator:
         if ent is None and isinstance(clsnode, ast.Name) and \
                 clsnode.id in self.env:
             ent = self.env[clsnode.id]
+        if isinstance(ent, External) and not isinstance(value, Abs):
+            nm = ent.name.split(".")[-1]
+            if nm in BUILTIN_TYPES:
+                return isinstance(value, BUILTIN_TYPES[nm])
+            if nm == "object":
+                return True
         if isinstance(value, Abs):
             if isinstance(ent, ClassInfo):
                 return value.isa(ent)
             if isinstance(ent, External):
                 return value.isa(ent.name.split(".")[-1])
             d = dotted(clsnode)
+            if isinstance(ent, External):
+                d = ent.name.split(".")[-1]
             if d in BUILTIN_TYPES or d in ("object",):
                 return d == "object" or value.isa(d)
             raise Unsupported("table evaluator: isinstance(_, %s)" %
@@ -569,6 +616,22 @@ class Evaluator:
                 raise
             return ("raise", r.cls)
         return ("fall", None)
+
+    def handler_matches(self, h, cls):
+        names = _handler_names(h)
+        if names is None:
+            return True
+        short = str(cls).split(".")[-1]
+        for n in names:
+            ns = n.split(".")[-1]
+            if ns in ("Exception", "BaseException"):
+                return True
+            if ns == short and (n.startswith("gfapy") ==
+                                str(cls).startswith("gfapy")):
+                return True
+            if ns == "Error" and str(cls).startswith("gfapy"):
+                return True
+        return False
 
     def block(self, body):
         for st in body:
@@ -642,9 +705,17 @@ class Evaluator:
         if isinstance(st, ast.Expr):
             if isinstance(st.value, (ast.Constant, ast.Name)):
                 return
+            if isinstance(st.value, ast.Yield):
+                self.env.setdefault("$yield", []).append(
+                    self.ev(st.value.value) if st.value.value is not None
+                    else None)
+                return
             self.ev(st.value)
             return
         if isinstance(st, (ast.Pass, ast.Assert)):
+            return
+        if isinstance(st, ast.FunctionDef):
+            self.env[st.name] = Closure(st, self)
             return
         if isinstance(st, ast.For) and not st.orelse:
             it = self.ev(st.iter)
@@ -674,8 +745,63 @@ class Evaluator:
                 r = self.hooks.try_stmt(self, st)
                 if r is not NotImplemented:
                     return
+            try:
+                try:
+                    self.block(st.body)
+                except Raised as r:
+                    for h in st.handlers:
+                        if self.handler_matches(h, r.cls):
+                            if h.name:
+                                self.env[h.name] = Abs(None, label="exc:%s" %
+                                                       r.cls)
+                            self.block(h.body)
+                            break
+                    else:
+                        raise
+                else:
+                    self.block(st.orelse)
+            finally:
+                if st.finalbody:
+                    self.block(st.finalbody)
+            return
         raise Unsupported("table evaluator: statement %s" %
                           unparse(st).split("\n")[0][:80])
+
+
+def _handler_names(h):
+    if h.type is None:
+        return None
+    if isinstance(h.type, ast.Tuple):
+        return [dotted(e) or unparse(e) for e in h.type.elts]
+    return [dotted(h.type) or unparse(h.type)]
+
+
+class Closure:
+    """nested function; a generator is evaluated eagerly into a list"""
+
+    def __init__(self, node, outer):
+        self.node = node
+        self.outer = outer
+
+    def call(self, ev, args, kwargs):
+        env = dict(self.outer.env)
+        names = [a.arg for a in self.node.args.args]
+        for i, n in enumerate(names):
+            if i < len(args):
+                env[n] = args[i]
+            elif n in kwargs:
+                env[n] = kwargs[n]
+        env.pop("$yield", None)
+        sub = Evaluator(ev.repo, self.outer.module, env, None, ev.hooks,
+                        ev.depth + 1, ev.shared)
+        sub.func = self.outer.func
+        sub.self_name = self.outer.self_name
+        is_gen = any(isinstance(n, (ast.Yield, ast.YieldFrom))
+                     for n in ast.walk(self.node))
+        kind, val = sub.run(self.node.body, reraise=True)
+        if is_gen:
+            return list(sub.env.get("$yield", []))
+        return val
 
 
 class _Break(Exception):
